@@ -156,9 +156,8 @@ pub fn check_field(ctx: &mut Ctx, g: &GRel) -> bool {
             }
         }
     }
-    // ---- lossy (fields without substvars; line breaks inside [..]/<..> are only demanded of the lossless reader,
-    //      the statement grants free newlines around separators)
-    if !has_sv && !g.features.contains(&"inner-group-newline") {
+    // ---- lossy (fields without substvars): "accepts the same fields ... and yields the same structure"
+    if !has_sv {
         let r = guard(t.len(), || debian_control::lossy::Relations::from_str(t).map(|rel| rel.0.iter().map(|e| e.iter().map(seen_lossy).collect::<Vec<_>>()).collect::<Vec<_>>()));
         match r {
             Err(f) => {
